@@ -124,6 +124,10 @@ func (m *Monitor) TCPReadEnd(c *TCPConn, err error) {
 }
 
 func (m *Monitor) TCPClosed(c *TCPConn, how string) {
+	if c.Role == "relay-out" || c.Role == "relay-conn" {
+		m.relayPeerConnClosed(c)
+		return
+	}
 	if c.Role != "listener-conn" {
 		return
 	}
